@@ -17,6 +17,7 @@ SHELL = {
     'sed 1d': lambda ls: list(ls[1:]),
     'sed p': lambda ls: [x for l in ls for x in (l, l)],
     'head -n 2': lambda ls: list(ls[:2]),
+    'burst': lambda ls: list(ls),       # first line, a pause, then the rest: the output reaches the editor in several short reads
 }
 SIMPLE_PATS = ['a', 'o', 'foo', 'x', '^$', '^a', 'o$', 'b.r', 'zzzz', 'fo*', ' ']
 
@@ -97,13 +98,13 @@ def gen_script(R, kind):
         elif k < 0.91:
             c = 'k'
             loc = gen_addr(R, n, False, False, marks)
-            arg = R.choice('abcq')
+            arg = R.choice('abcqzym')
             if arg not in marks:
                 marks.append(arg)
         elif k < 0.96:
             c = '!'
             loc = gen_addr(R, n, True, False, marks) or '.'
-            arg = R.choice(list(SHELL))
+            arg = R.choice([s for s in SHELL if s != 'burst'] * 3 + ['burst'])
         elif k < 0.975:
             c = 'rs'
             loc = ''
